@@ -61,6 +61,17 @@ PROPS.update({
         "technique": "Verus ghost counters + loop invariants + decreases on the extracted validator; arithmetic composition lemma",
         "extra": ["c18_walk_count"],
     },
+    "C03": {
+        "title": "Every accepted packet reads back completely and faithfully via the iterators",
+        "units": ["U2", "U1"],
+        "cone": {"U1": [r"DNSSector::(parse|parse_rr|parse_opt|parse_question|new)$"], "U2": None},
+        "witness": ("c03", 10000),
+        "level": "proof", "design_ref": "DESIGN.md section 5 C03",
+        "assumptions": U1_ASSUME + ["std::net::IpAddr/Ipv4Addr/Ipv6Addr are opaque: from([u8;N]) and octets() are assumed inverse (prelude/net.rs)",
+                                     "the trait method `next` of the three iterators is verified as an inherent method with the same body (rewrite R21)"],
+        "level_text": "under ParsedPacket::wf() (which parse establishes for every accepted packet: lemma_parse_wf over parse's verified postcondition) every iterator step keeps the invariant 'cursor designates record k in wire order', next skips exactly the OPT record wherever it sits, each accessor equals the spec decode, and no reader indexes outside the packet or has &mut access to the bytes",
+        "technique": "Verus representation invariant of the iterators + accessor postconditions against spec decoders, on the extracted readers (unit U2); verified client walks",
+    },
     "C04": {
         "title": "Header, question and EDNS summaries equal what the bytes say",
         "units": ["U1", "U3"],
